@@ -154,6 +154,33 @@ def run(seed=0, rounds=400):
     from native import axioms_c14  # externals of the C14 extension contracts (mask rank function, math.fsum/sqrt, float ** 2)
     for _ in range(rounds):
         axioms_c14.run(check, rng, int(rng.randint(0, 7)))
+    # L-MONOID (C11 chain contracts): the fold of an associative operation with identity over a list -- split, singleton,
+    # empty, frame (the fold depends only on the items of the range), and the splice form used for `items[i:i+2] = pair`;
+    # instantiated with 2x2 integer matrices under multiplication (a non-commutative monoid)
+    def fold(xs, lo, hi):
+        r = numpy.eye(2, dtype=int)
+        for k in range(lo, hi):
+            r = r @ xs[k]
+        return r
+    for _ in range(rounds // 4):
+        n = rng.randint(0, 7)
+        xs = [rng.randint(-2, 3, size=(2, 2)) for _ in range(n)]
+        lo = rng.randint(0, n + 1)
+        hi = rng.randint(lo, n + 1)
+        k = rng.randint(lo, hi + 1)
+        check('monoid-fold-split', (fold(xs, lo, hi) == fold(xs, lo, k) @ fold(xs, k, hi)).all(), lo, k, hi)
+        check('monoid-fold-empty', (fold(xs, lo, lo) == numpy.eye(2, dtype=int)).all(), lo)
+        if lo < n:
+            check('monoid-fold-singleton', (fold(xs, lo, lo + 1) == xs[lo]).all(), lo)
+        ys = [rng.randint(-2, 3, size=(2, 2)) for _ in range(rng.randint(0, 3))] + xs[lo:hi] + [rng.randint(-2, 3, size=(2, 2))]
+        lo2 = len(ys) - 1 - (hi - lo)
+        check('monoid-fold-frame', (fold(xs, lo, hi) == fold(ys, lo2, lo2 + hi - lo)).all(), lo, hi, lo2)
+        if n >= 2:
+            i = rng.randint(0, n - 1)
+            s0 = rng.randint(-2, 3, size=(2, 2))
+            zs = xs[:i] + [s0, numpy.eye(2, dtype=int)] + xs[i + 2:]
+            zs[i + 1] = rng.randint(-2, 3, size=(2, 2))
+            check('monoid-fold-splice', (fold(zs, 0, n) == fold(xs, 0, i) @ (zs[i] @ zs[i + 1]) @ fold(xs, i + 2, n)).all(), i)
     print('AXIOMS ' + json.dumps(dict(rounds=rounds, failures=fails[:5])))
     return not fails
 
